@@ -35,6 +35,7 @@ CORE = {
         'kind=flush,ctor=std,calls=W5,k=0.2,ev=h,closers=0',
         'kind=flush,ctor=std,calls=F3.F0t,k=a,closers=1',
         'kind=flush,ctor=std,calls=W4t.W3t.W2t,k=0.a.0.a.0,closers=0',
+        'kind=flush,ctor=std,calls=W4.W3.W2,k=0.a.0.a.0,closers=0',
         # small ones, exhausted at the bound
         'kind=flush,ctor=std,calls=W4,k=0,closers=0',
         'kind=flush,ctor=std,calls=W4t,k=0.0,closers=0',
@@ -88,7 +89,7 @@ def plan(prop, tier, seed, escalate=False):
     if tier == 'thorough':
         bound, maxruns, nsample, walks, wbound = 3, 20000, 192, 300, 3
     else:
-        bound, maxruns, nsample, walks, wbound = 2, 4000, 64, 80, 2
+        bound, maxruns, nsample, walks, wbound = 2, 3000, 64, 60, 2
     if escalate:
         maxruns *= 3; walks *= 3
     jobs = []
